@@ -187,6 +187,33 @@ def c17_tracks(ntr: int, o1: int, vel: int) -> bool:
     return True
 
 
+def c17_names(n1: int, n2: int, o1: int) -> bool:
+    """track names of any length up to 300 characters come back as written (the name's length field becomes a
+    two-byte variable-length quantity from 128 characters on), on the first and on the last track"""
+    lens = [0, 1, 126, 127, 128, 129, 255, 256, 300]
+    a = pick(lens, n1)
+    b = pick(lens, n2)
+    c = Composition()
+    x = Note("C", o1)
+    for i, ln in enumerate((a, b)):
+        t = _mk_track([("C", (4, 4), [(4, [x]), (4, None), (2, [x])])], None)
+        t.name = ("N%d-" % i + "abcdefghij" * 30)[:ln]
+        c.add_track(t)
+    path = vio.new_path("c17n.mid")
+    if not MFO.write_Composition(path, c, 120):
+        return False
+    c2, bpm = MFI.MIDI_to_Composition(path)
+    if len(c2.tracks) != 2:
+        return False
+    for i, ln in enumerate((a, b)):
+        want = ("N%d-" % i + "abcdefghij" * 30)[:ln]
+        if c2.tracks[i].name != want:
+            return False
+        if _flatten_track(c2.tracks[i]) != [(72, [_pitch(x)]), (72, []), (144, [_pitch(x)])]:
+            return False
+    return True
+
+
 def c17_bpm(bpm: int) -> bool:
     bpm = enum(bpm, P["lo"], P["hi"])
     b = Bar("C", (4, 4))
@@ -254,6 +281,7 @@ def claims(tier):
         for vi in range(nv):
             cl.append(Claim("program[%s,v=%s]" % (shape, round(VALS[vi], 3)), c17_program, params={"shape": shape, "vi": vi, "fewkeys": q}, group="c17_program", pre=[lambda pi, o1, o2, vel, ch, vi, ki, inr: 0 <= pi < len(POOL) and 1 <= o1 <= 8 and 1 <= o2 <= 8 and 1 <= vel <= 127 and 0 <= ch <= 15 and vi == P["vi"] and 0 <= ki < (6 if P.get("fewkeys") else 30) and 0 <= inr <= 127], timeout=1500 if q else 3200, per_path=90, bounds="shape %s, value %s, 3/4; 4 name pairs; %s keys; octaves 1..8, velocity 1..127, channel 0..15, instrument number 0..127 symbolic; with and without MIDI instrument" % (shape, round(VALS[vi], 3), "6" if q else "all 30")))
     cl.append(Claim("tracks", c17_tracks, pre=[lambda ntr, o1, vel: 1 <= ntr <= 4 and 1 <= o1 <= 7 and 1 <= vel <= 127], timeout=1200, bounds="1..4 tracks; octave and velocity symbolic"))
+    cl.append(Claim("names", c17_names, pre=[lambda n1, n2, o1: 0 <= n1 < 9 and 0 <= n2 < 9 and 1 <= o1 <= 7], timeout=1500 if q else 3000, bounds="two tracks with names of length 0, 1, 126..129, 255, 256, 300 (all pairs); octave symbolic"))
     step = 125 if q else 63
     hi_all = 504 if q else 1001
     for lo in range(4, hi_all, step):
